@@ -24,7 +24,7 @@ class Builder:
         self.tasks = {}
         self.on_call = on_call or (lambda tid, ctx, args, kwargs: None)
         self.task_kwargs = task_kwargs or {}   # id -> extra Task kwargs (pre/post...)
-        self.sigs = sigs or {}                 # id -> python parameter list source, e.g. "x=1, y=None"
+        self.sigs = sigs if sigs is not None else {}   # id -> python parameter list source, e.g. "x=1, y=None"
 
     def task(self, info):
         from invoke import Task
@@ -33,12 +33,13 @@ class Builder:
             return self.tasks[tid]
         ns = {"_run": self.on_call}
         params = self.sigs.get(tid)
+        # the docstring makes the task recognisable in --list output
         if params is None:
-            src = "def body(c, *a, **k):\n    return _run(%d, c, a, k)\n" % tid
+            src = "def body(c, *a, **k):\n    'task %d'\n    return _run(%d, c, a, k)\n" % (tid, tid)
         else:
             names = [p.split("=")[0].strip() for p in params.split(",") if p.strip()]
-            src = "def body(c%s):\n    return _run(%d, c, (), dict(%s))\n" % (
-                (", " + params) if params.strip() else "", tid,
+            src = "def body(c%s):\n    'task %d'\n    return _run(%d, c, (), dict(%s))\n" % (
+                (", " + params) if params.strip() else "", tid, tid,
                 ", ".join("%s=%s" % (n, n) for n in names))
         exec(src, ns)
         body = ns["body"]
@@ -53,6 +54,7 @@ class Builder:
         from invoke import Collection
         args = [spec["name"]] if spec.get("name") is not None else []
         c = Collection(*args, auto_dash_names=spec.get("auto_dash", True))
+        c.__doc__ = "COLL"
         for it in spec.get("items", []):
             if "task" in it:
                 kw = {}
@@ -189,7 +191,7 @@ class Ids:
 
 
 def gen_coll(rng, depth, ids, name=None, clean=True, p_break=0.0, width=3, p_default=0.5,
-             p_subdefault=0.25, auto_dash=None, share=0.0):
+             p_subdefault=0.25, auto_dash=None, share=0.0, p_extra=0.25, p_rename=0.3):
     """A random collection spec.  clean=True keeps every name inside one
     collection distinct (after normalisation); clean=False allows collisions."""
     ad = (rng.random() < 0.75) if auto_dash is None else auto_dash
@@ -216,8 +218,8 @@ def gen_coll(rng, depth, ids, name=None, clean=True, p_break=0.0, width=3, p_def
                 t = rng.choice(ids.made)
             else:
                 t = ids.new(rng)
-            bind = rng.choice(TASK_NAMES) if rng.random() < 0.3 else None
-            extra = rng.sample(ALIASES, rng.choice([0, 0, 0, 1]))
+            bind = rng.choice(TASK_NAMES) if rng.random() < p_rename else None
+            extra = rng.sample(ALIASES, 1) if rng.random() < p_extra else []
             if clean:
                 t = dict(t)
                 t["default"] = False
@@ -246,7 +248,7 @@ def gen_coll(rng, depth, ids, name=None, clean=True, p_break=0.0, width=3, p_def
             spec["items"].append({"task": t, "bind": bind, "aliases": extra, "default": d})
         else:
             cname = rng.choice(COLL_NAMES)
-            bind = rng.choice(COLL_NAMES) if rng.random() < 0.3 else None
+            bind = rng.choice(COLL_NAMES) if rng.random() < p_rename else None
             if clean:
                 nm = bind if bind is not None else cname
                 if not free(nm):
@@ -259,7 +261,7 @@ def gen_coll(rng, depth, ids, name=None, clean=True, p_break=0.0, width=3, p_def
             if not clean and rng.random() < 0.07:
                 cname = None if bind is None else cname
             child = gen_coll(rng, depth - 1, ids, cname, clean, p_break, width, p_default,
-                             p_subdefault, None if rng.random() < 0.5 else ad, share)
+                             p_subdefault, None if rng.random() < 0.5 else ad, share, p_extra, p_rename)
             d = False
             if (not has_default or not clean and rng.random() < 0.1) and rng.random() < p_subdefault:
                 d = True
